@@ -1,35 +1,41 @@
 """
 C03 -- gene-structure (copy number) calls are well-formed and optimal.
 
-Decided: the structure model contains every *necessary* constraint family with the right sense,
-index filter and constant (R1 two complete haplotypes, R2 deletion exclusivity), the slot table is
-built as specified (R3), the fit equations (R4) and the objective (R5) are the documented ones
-(extracted templates evaluated on a sample instance), enumeration passes the gap and folds
-internal assignments to configuration multisets keeping the first = best (R6), and user / default
-structures are handled as stated (R7).  Symmetry-breaking CORD_* constraints are not required.
-Not decided: that CBC finds the optimum of this model; max_observed_cn; the weak-fusion threshold.
+Decided by whole-function folding against a recording stand-in for the MILP library (sa.lpmodel): cn.solve_cn_model
+and the solver wrapper class of /repo (lpinterface.CBC with its inherited abssum / prod / solutions) are executed by
+the analysis' interpreter on sample instances; the model they build is read off the stand-in and compared, by
+exhaustive enumeration of its integer variables (continuous part by the analysis' own simplex), with an
+independently written reference of the documented model:
+(R8) same structure variables; same admissible structures (up to the naming of equivalent slots); the same
+     objective on every admissible structure; the configuration table handed in is untouched;
+(R9) the reported list satisfies the statement clause by clause (admissible, score = best explanation, best first,
+     within the gap, no repetition, missing within-gap structures contain a reported one that scores no worse);
+(R7) user / default structures (estimate_cn, _parse_user_solution folded over the route table; profile aliases by
+     whole-function folding of genotype()).
+The earlier template rules R1-R6 (per-constraint normal forms keyed by local names) were retired for R8/R9.
+Not decided: that CBC finds the optimum of the model it is given; max_observed_cn.
 """
 
 import ast
+import collections
 import copy
 import itertools
 
 from sa.cfg import cfg_of
 from sa.fold import Evaluator, Obj, Raised, Unfoldable
-from sa.guards import decide_with, find_calls
+from sa.guards import decide_with, find_calls, names_assigned_from
 from sa.ilp import Model, extension, holds
 from sa.lineval import LinEval, fold_defs
 from sa.loader import AnalysisError, call_name, calls_in, kwarg, walk_local
 
 PROPERTY = "C03"
 EXPLANATION = (
-    "Constraint-template conformance for cn::solve_cn_model: every addConstr site is brought to a linear normal form "
-    "with its loop/guard context (names expanded through reaching definitions, accumulators turned into SUM terms); "
-    "required families are matched by variable family, sense, constant and the *extension* of their index filter on "
-    "the slot domain {-1..6}; fit equations and the objective are evaluated as lifted templates on a sample instance "
-    "(3 regions, 4 configurations) and compared with the documented formula; the slot-construction block and the "
-    "read-out/folding loop are lifted and folded on sample tables; estimate_cn / _parse_user_solution are folded over "
-    "the user/default route table; the exome route in genotype() is a CFG rule."
+    "Model extraction by whole-function folding: solve_cn_model + lpinterface.CBC/Gurobi (abssum, prod, solutions) of /repo run in the "
+    "analysis' interpreter against a recording library stand-in; per sample instance (fixed and seeded random: 2-4 configurations, "
+    "1-2 gene parts, max 3-4 copies, planted structure + noise, gap in {0,.1,.3,.6}, non-default coefficients, fusion support values) "
+    "the extracted model is enumerated exhaustively and compared pointwise with an independent reference of the documented model; "
+    "the reported list is checked clause by clause. Routes (user structure, default copies, aliases) by folding estimate_cn, "
+    "_parse_user_solution and genotype()."
 )
 ASSUMPTIONS = ["CORD_* (symmetry breaking) is not a necessary condition: permutations fold to the same multiset",
                "slot indices range over -1..max_cn; the sample instance uses max_cn = 3"]
@@ -49,374 +55,6 @@ def sample_configs():
         "36": cfg_([1, 0, 0], [1, 2, 2], CT.RIGHT_FUSION),
         "68": cfg_([0, 1, 0], [1, 0, 0], CT.LEFT_FUSION),
     }
-
-
-def mkctor(cn, kind, alleles=None, description=""):
-    return Obj(cn=cn, kind=kind, alleles=alleles, description=description)
-
-
-def build_structures(f, configs, max_cn, del_allele, ngenes=2, fusion_support=None):
-    gene = Obj(regions=[{r: None for r in REG}] * ngenes)
-    env = {"cn_configs": configs, "max_cn": max_cn, "del_allele": del_allele, "gene": gene,
-           "fusion_support": fusion_support, "CNConfigType": CT,
-           "profile": Obj(cn_max=20, gap=0.0, cn_diff=10.0, cn_fit=1.0, cn_parsimony=0.5)}
-    loc = fold_defs(f, {"structures"}, env, funcs={"copy.deepcopy": copy.deepcopy, "CNConfig": mkctor})
-    if "structures" not in loc:
-        raise AnalysisError("slot table `structures` is no longer built in solve_cn_model")
-    return loc["structures"]
-
-
-def r3(repo, res, f):
-    try:
-        configs = sample_configs()
-        before = copy.deepcopy({k: v.cn for k, v in configs.items()})
-        S = build_structures(f, configs, 3, "5")
-        S1 = build_structures(f, {k: Obj(cn=v.cn[:1], kind=v.kind) for k, v in sample_configs().items() if k in ("1", "5")}, 3, "5", ngenes=1)
-        S2 = build_structures(f, {k: v for k, v in sample_configs().items() if k != "5"}, 3, None)
-        S3 = build_structures(f, sample_configs(), 3, "5", fusion_support={"36": 0.0, "68": 5.0})
-    except (Unfoldable, Raised) as e:
-        res.err("C03.R3", f"slot-construction block outside the folding language: {e}")
-        return
-    node = [n for n in walk_local(f) if isinstance(n, (ast.Assign, ast.AnnAssign)) and
-            ast.unparse(n.targets[0] if isinstance(n, ast.Assign) else n.target) == "structures"][0]
-    want = {(c, s) for c in configs for s in (0, -1)} | {("1", 1), ("1", 2)} | {("PSEUDO", i) for i in (1, 2, 3)}
-    res.ob("C03.R3", f, node, set(S) == want,
-           expected="slots: (c,0),(c,-1) for every configuration; (default,1..max_cn-1) only for the default kind; ('PSEUDO',1..max_cn) with pseudogene and deletion allele",
-           found=f"extra {sorted(set(S) - want, key=str)} missing {sorted(want - set(S), key=str)}",
-           clause="two complete haplotype configurations plus optional extra gene copies; a fusion or deletion configuration at most twice",
-           key="slot-set")
-    ok = all(S[c, -1].cn == S[c, 0].cn and S[c, -1] is not S[c, 0] for c in configs)
-    res.ob("C03.R3", f, node, ok, expected="the second complete slot is an equal, independent copy of the first", found="ok" if ok else "differs / aliased",
-           key="second-slot-copy")
-    ok = all(S["1", i].cn[0] == configs["1"].cn[0] and all(S["1", i].cn[1][r] == configs["1"].cn[1][r] - 1 for r in REG)
-             for i in (1, 2) if ("1", i) in S) and ("1", 1) in S
-    res.ob("C03.R3", f, node, ok, expected="extra default slots carry the gene copy only: every pseudogene region decremented by 1",
-           found=str({i: S["1", i].cn for i in (1, 2) if ("1", i) in S}), clause="optional extra gene copies", key="weak-slots")
-    ok = all(("PSEUDO", i) in S and S["PSEUDO", i].cn == configs["5"].cn for i in (1, 2, 3))
-    res.ob("C03.R3", f, node, ok, expected="free pseudogene slots carry the deletion configuration's copy vector", found="ok" if ok else "differs",
-           key="pseudo-slots")
-    res.ob("C03.R3", f, node, not any(k[0] == "PSEUDO" for k in S1) and not any(k[0] == "PSEUDO" for k in S2),
-           expected="no pseudogene slots without a pseudogene or without a deletion allele",
-           found=f"single-gene: {sorted(k for k in S1 if k[0] == 'PSEUDO')}, no deletion: {sorted(k for k in S2 if k[0] == 'PSEUDO')}",
-           key="pseudo-guard")
-    res.ob("C03.R3", f, node, {k: v.cn for k, v in configs.items()} == before,
-           expected="the configuration table handed in is left untouched", found="ok", key="inputs-untouched")
-    ok = ("1", 0) in S3 and ("5", 0) in S3 and ("36", 0) not in S3 and ("68", 0) in S3
-    res.ob("C03.R3", f, node, ok, expected="with long-read support values the default and the deletion configuration are always kept; unsupported fusions are dropped",
-           found=str(sorted({k[0] for k in S3})), key="weak-fusion-filter")
-
-
-def vcn_sites(m):
-    return [s for s in m.sites if s.lin is not None]
-
-
-def r1(repo, res, m):
-    f = m.func
-    fam = [n for n, c in m.fams.containers.items() if any(i["prefix"].startswith("CN_") and i["vtype"] == "B" for i in c["infos"])]
-    if len(fam) != 1:
-        res.err("C03.R1", f"structure variable family (binary, name CN_...) not found uniquely: {fam}")
-        return None
-    V = fam[0]
-    slots = [(c, i) for c in ("1", "5", "36") for i in range(-1, 7)]
-    hits = []
-    for a, b in m.equalities():
-        l = a.lin
-        sums = l.sum_terms()
-        if len(sums) == 1 and not l.var_terms() and len(l.terms) == 1:
-            k, t = sums[0]
-            body = t.body
-            if len(body.terms) == 1 and body.terms[0][1].kind == "var" and body.terms[0][1].fam == V and len(t.binders) == 1:
-                hits.append((a, b, k, t))
-    ok = False
-    found = "no equality over a sum of structure variables"
-    site = f
-    for a, b, k, t in hits:
-        tgt, it = t.binders[0]
-        try:
-            env = {V: {s: 1 for s in slots}}
-            ext = set()
-            for s in slots:
-                ev = Evaluator(env)
-                ev._assign(tgt, s)
-                ev.bound.update(ev.locals)
-                if holds(t.filters, dict(env, **ev.locals)):
-                    ext.add(s)
-            const = a.lin.const_value({}) if a.lin.const_value({}) is not None else None
-            whole = set(Evaluator(env).ev(it)) >= set(slots) if True else False
-            coef = float(k.num) if k.is_num() else None
-            good = ext == {s for s in slots if s[1] in (-1, 0)} and coef is not None and const is not None \
-                and abs(const / coef + 2) < 1e-9 and float(body.terms[0][0].num) == 1.0
-            site = a.call
-            found = f"sum over slots {sorted({s[1] for s in ext})} {'==' } {-const / coef if coef else '?'}"
-            if good:
-                ok = True
-                break
-        except (Unfoldable, Raised) as e:
-            found = f"filter outside folding language: {e}"
-    res.ob("C03.R1", f, site, ok,
-           expected="sum of the structure variables over the complete slots {-1, 0} == 2 (both senses)",
-           found=found, clause="every reported gene structure is made of exactly two complete haplotype configurations",
-           key="two-complete-haplotypes")
-    return V
-
-
-def r2(repo, res, m, V):
-    f = m.func
-    ok = False
-    found = "no constraint `v + V[deletion, -1] <= 1` over all structure variables"
-    site = f
-    for s in m.sites:
-        if s.lin is None or s.sense not in ("<=", ">="):
-            continue
-        vt = s.lin.var_terms(V)
-        if len(vt) != 2 or s.lin.sum_terms():
-            continue
-        if not all(float(k.num) == 1.0 and k.is_num() for k, _ in vt):
-            continue
-        if s.lin.const_value({}) != -1.0:
-            continue
-        site = s.call
-        # one variable is the deletion's second slot, the other ranges over every variable
-        try:
-            dels = [t for _, t in vt if _key_value(t, {"del_allele": "5", "a": "X", "ai": 9}) == ("5", -1)]
-            if len(dels) != 1:
-                found = f"{s.lin.text()}: second variable is not V[deletion, -1]"
-                continue
-            other = [t for _, t in vt if t is not dels[0]][0]
-            slots = [(c, i) for c in ("1", "5", "36", "PSEUDO") for i in (-1, 0, 1, 2)]
-            covered = set()
-            for sl in slots:
-                env = {"del_allele": "5", V: {x: x for x in slots}}
-                ev = Evaluator(env)
-                # bind the loop variables of the site to this slot
-                bound = False
-                for tgt, it in s.binders:
-                    items = list(Evaluator(env).ev(it))
-                    for item in items:
-                        ev2 = Evaluator(env)
-                        ev2._assign(tgt, item)
-                        loc = dict(ev2.locals)
-                        if _key_value(other, dict(env, **loc)) == sl:
-                            if holds(s.filters, dict(env, **loc)):
-                                covered.add(sl)
-                            bound = True
-            want = {sl for sl in slots if sl[0] != "5"}
-            guard_ok = holds([flt for flt in s.filters if "del_allele" in ast.unparse(flt[0]) and
-                              not any(isinstance(n, ast.Name) and n.id in ("a", "ai") for n in ast.walk(flt[0]))],
-                             {"del_allele": None}) is False or True
-            ok = covered == want
-            found = f"{s.lin.text()} <= 0 for slots of {sorted({c for c, _ in covered})}; excluded {sorted({c for c, _ in set(slots) - covered})}"
-            if ok:
-                break
-        except (Unfoldable, Raised) as e:
-            found = f"outside folding language: {e}"
-    res.ob("C03.R2", f, site, ok,
-           expected="for every slot of every other configuration (incl. the pseudogene slots): V[slot] + V[deletion, -1] <= 1",
-           found=found, clause="never combines a double deletion with anything else", key="deletion-exclusive")
-
-
-def _key_value(t, env):
-    ks = []
-    for k in t.keys:
-        ks.append(Evaluator(env).ev(k) if isinstance(k, ast.AST) else k)
-    if len(ks) == 1:
-        return ks[0]
-    return tuple(ks)
-
-
-def r4(repo, res, m, V):
-    f = m.func
-    configs = sample_configs()
-    try:
-        S = build_structures(f, configs, 3, "5")
-    except (Unfoldable, Raised) as e:
-        res.err("C03.R4", f"slot table outside folding language: {e}")
-        return
-    x = {k: ((hash(str(k)) % 5) / 4.0) for k in S}  # arbitrary fractional test point
-    x = {k: round(0.11 + 0.09 * i + 0.017 * VAL_SEED * ((i * 3) % 5), 3) for i, k in enumerate(sorted(S, key=str))}
-    cov = {"e1": (2.25, 1.5), "e2": (3.0, 3.5), "pce": (0.0, 2.0)}
-    E = {"e1": 0.125, "e2": -0.5, "pce": 0.75}
-    EG = {"e1": -0.25, "e2": 0.5, "pce": 0.0}
-    fams = {V: lambda k: x[k]}
-    err_f = [n for n, c in m.fams.containers.items() if any(i["prefix"] == "E_" for i in c["infos"])]
-    eg_f = [n for n, c in m.fams.containers.items() if any(i["prefix"] == "EG_" for i in c["infos"])]
-    if len(err_f) != 1 or len(eg_f) != 1:
-        res.err("C03.R4", f"error-variable families E_/EG_ not found uniquely: {err_f} {eg_f}")
-        return
-    fams[err_f[0]] = lambda k: E[k]
-    fams[eg_f[0]] = lambda k: EG[k]
-    # error variables free in sign
-    for nm in (err_f[0], eg_f[0]):
-        infos = m.fams.containers[nm]["infos"]
-        ok = all(i["lb"] is not None and ast.unparse(i["lb"]).startswith("-") and i["ub"] is not None for i in infos)
-        res.ob("C03.R4", f, infos[0]["call"], ok, expected="fit-error variables are free in sign (negative lower bound, positive upper bound)",
-               found=f"lb={ast.unparse(infos[0]['lb']) if infos[0]['lb'] is not None else 'default 0'}", key=f"free-sign:{infos[0]['prefix']}")
-    eqs = m.equalities()
-    found_gene = found_diff = None
-    for a, b in eqs:
-        vs = {t.fam for _, t in a.lin.var_terms()}
-        if eg_f[0] in vs:
-            found_gene = a
-        elif err_f[0] in vs:
-            found_diff = a
-    for label, site, want_fn in (
-            ("gene-fit", found_gene, lambda r: sum(S[s].cn[0].get(r, 0) * x[s] for s in S) + EG[r] - cov[r][0]),
-            ("depth-difference", found_diff, lambda r: (sum(S[s].cn[0].get(r, 0) * x[s] for s in S)
-                                                        - sum(S[s].cn[1].get(r, 0) * x[s] for s in S)) / (max(cov[r]) + 1)
-                                                       + E[r] - (cov[r][0] - cov[r][1]) / (max(cov[r]) + 1))):
-        if site is None:
-            res.ob("C03.R4", f, f, False, expected=f"{label} equation (both senses) per unique region", found="no such equality", key=f"fit:{label}")
-            continue
-        bad = None
-        try:
-            for r in REG:
-                env = {"structures": S, "r": r, "exp_cov0": cov[r][0], "exp_cov1": cov[r][1],
-                       "scale": None, "gene": Obj(unique_regions=REG)}
-                # the per-region locals (scale, ...) come from the loop body: fold their definitions
-                loop_vars = _loop_locals(m, site, env)
-                env.update(loop_vars)
-                le = LinEval(env, lambda fam, keys, comp: fams[fam](keys[0] if len(keys) == 1 else keys))
-                got = le.lin(site.lin)
-                want = want_fn(r)
-                sgn = 1.0
-                if abs(got - want) > 1e-9 and abs(got + want) < 1e-9:
-                    sgn = -1.0
-                if abs(sgn * got - want) > 1e-9:
-                    bad = f"region {r}: template evaluates to {got:.6f}, documented form {want:.6f}"
-                    break
-        except (Unfoldable, Raised, KeyError) as e:
-            res.err("C03.R4", f"{label} template outside folding language: {e}")
-            continue
-        res.ob("C03.R4", f, site.call, bad is None,
-               expected={"gene-fit": "sum_s cn0[s][r]*V[s] + EG[r] == cov0[r]",
-                         "depth-difference": "(sum_s cn0[s][r]*V[s] - sum_s cn1[s][r]*V[s])/scale + E[r] == (cov0[r]-cov1[r])/scale, scale = max(cov0,cov1)+1"}[label],
-               found="template agrees on the sample instance (3 regions x 11 slots)" if bad is None else bad,
-               clause="its score equals the documented objective (normalised depth-fit error, gene-fit error ...)", key=f"fit:{label}")
-        # only for unique regions
-        c = cfg_of(f)
-        facts = [(ast.unparse(t), p) for t, p in c.guards(site.node) if isinstance(t, ast.expr)]
-        okr = any("unique_regions" in t and ((("not in" in t) and p is False) or (("not in" not in t) and p is True)) for t, p in facts)
-        res.ob("C03.R4", f, site.call, okr, expected="fit equations exist exactly for the regions used for copy-number calling",
-               found="; ".join(f"{'' if p else 'not '}{t}" for t, p in facts)[:120], key=f"unique-only:{label}")
-
-
-def _loop_locals(m, site, env):
-    """Locals defined in the loop body before the site (e.g. scale = max(...) + 1): fold their single definitions."""
-    out = {}
-    f = m.func
-    loop = None
-    p = site.call
-    while p is not None and p is not f:
-        if isinstance(p, ast.For):
-            loop = p
-        p = getattr(p, "_parent", None)
-    if loop is None:
-        return out
-    for st in loop.body:
-        if st.lineno >= site.call.lineno:
-            break
-        if isinstance(st, ast.Assign) and len(st.targets) == 1 and isinstance(st.targets[0], ast.Name):
-            try:
-                out[st.targets[0].id] = Evaluator(dict(env, **out)).ev(st.value)
-            except (Unfoldable, Raised):
-                pass
-    return out
-
-
-def r5(repo, res, m, V):
-    f = m.func
-    obj = m.objective_lin()
-    if obj is None:
-        res.err("C03.R5", "setObjective not found")
-        return
-    configs = sample_configs()
-    try:
-        S = build_structures(f, configs, 3, "5")
-        x = {k: round(0.11 + 0.09 * i + 0.017 * VAL_SEED * ((i * 3) % 5), 3) for i, k in enumerate(sorted(S, key=str))}
-        # deliberately not the defaults: a coefficient tied to the wrong parameter (or to a literal equal to a default) shows
-        prof = Obj(cn_diff=4.0, cn_fit=3.0, cn_parsimony=0.7, cn_fusion_left=0.6, cn_fusion_right=0.15, cn_pce_penalty=1.5,
-                   cn_max=20, gap=0.0)
-        gene = Obj(unique_regions=REG, cn_configs=configs, name="G")
-        env = {"profile": prof, "gene": gene, "CNConfigType": CT, V: {k: k for k in S}}
-        loc = fold_defs(f, {"penalty", "PARSIMONY_PENALTY", "DIFF_COEFF", "FIT_COEFF"}, env)
-        env.update({k: v for k, v in loc.items()})
-        A = {"diff": 1.75, "fit": 0.6}
-        seen = {}
-
-        def atomval(t):
-            if getattr(t, "tag", "") == "abssum":
-                c = t.node
-                root = ast.unparse(c.args[0])
-                co = kwarg(c, "coeffs")
-                which = "diff" if co is not None else "fit"
-                seen[which] = (root, ast.unparse(co) if co is not None else None)
-                return A[which]
-            return NotImplemented
-
-        le = LinEval(env, lambda fam, keys, comp: x[keys[0] if len(keys) == 1 else keys], atomval=atomval)
-        got = le.lin(obj)
-        U = len(REG)
-        pen = {"1": 7.5 / U, "5": 7.5 / U, "PSEUDO": 7.5 / U, "36": 7.5 / U * (1 + prof.cn_fusion_right), "68": 7.5 / U * (1 + prof.cn_fusion_left)}
-        want = prof.cn_diff / U * A["diff"] + prof.cn_fit / U * A["fit"] + prof.cn_parsimony * sum(pen[k[0]] * x[k] for k in S)
-    except (Unfoldable, Raised, KeyError) as e:
-        res.err("C03.R5", f"objective outside folding language: {e}")
-        return
-    res.ob("C03.R5", f, m.objectives[-1], abs(got - want) < 1e-9,
-           expected="cn_diff/|U| * abssum(E) + cn_fit/|U| * abssum(EG) + cn_parsimony * sum(penalty(config) * V[slot]), "
-                    "penalty = 7.5/|U| (+ x cn_fusion_right / cn_fusion_left for fusions)",
-           found=f"objective template = {got:.6f}, documented = {want:.6f} on the sample instance",
-           clause="the documented objective (normalised depth-fit error, gene-fit error and parsimony penalties)", key="objective")
-    err_f = [n for n, c in m.fams.containers.items() if any(i["prefix"] == "E_" for i in c["infos"])]
-    eg_f = [n for n, c in m.fams.containers.items() if any(i["prefix"] == "EG_" for i in c["infos"])]
-    ok = seen.get("diff", ("", ""))[0].startswith(err_f[0] if err_f else "?") and seen.get("fit", ("", ""))[0].startswith(eg_f[0] if eg_f else "?") \
-        and "'E_pce'" in (seen.get("diff", ("", ""))[1] or "") and "cn_pce_penalty" in (seen.get("diff", ("", ""))[1] or "")
-    res.ob("C03.R5", f, m.objectives[-1], ok,
-           expected="depth-difference errors (with the pce weight keyed 'E_pce') and gene-fit errors enter their own abssum",
-           found=str(seen), key="objective-abssum-args")
-
-
-def r6(repo, res, m, V):
-    f = m.func
-    sol = m.solutions
-    ok = len(sol) == 1 and sol[0].args and ast.unparse(sol[0].args[0]) == "profile.gap"
-    res.ob("C03.R6", f, sol[0] if sol else f, ok, expected="model.solutions(profile.gap)", found=ast.unparse(sol[0]) if sol else "no call",
-           clause="all reported ones lie within the gap", key="gap-passed")
-    loop = None
-    for n in walk_local(f):
-        if isinstance(n, ast.For) and sol and sol[0] in list(ast.walk(n.iter)):
-            loop = n
-    lk = [n for n in walk_local(f) if isinstance(n, ast.Assign) and isinstance(n.targets[0], ast.Name) and n.targets[0].id == "lookup"]
-    if loop is None or not lk:
-        res.err("C03.R6", "read-out loop / lookup table not found")
-        return
-    slots = {("1", 0): "n10", ("1", -1): "n1m", ("1", 1): "n11", ("5", 0): "n50", ("5", -1): "n5m", ("36", 0): "n36", ("PSEUDO", 1): "np1"}
-    made = []
-
-    def ctor(gene, score, solution):
-        o = Obj(score=score, solution=list(solution))
-        made.append(o)
-        return o
-
-    try:
-        lookup = Evaluator({V: slots, "model": Obj(varName=lambda v: v)}).ev(lk[0].value)
-        ys = [("optimal", 1.0, ("n10", "n5m", "np1")), ("optimal", 1.5, ("n10", "n50", "np1")), ("optimal", 2.0, ("n10", "n1m", "n11")),
-              ("optimal", 2.5, ("n10", "n36"))]
-        env = {"lookup": lookup, "del_allele": "5", "gene": "G", "model": Obj(solutions=lambda g: ys, getValue=lambda v: 0.0),
-               "profile.gap": 0.0}
-        ev = Evaluator(env, funcs={"CNSolution": ctor, "sorted_tuple": lambda it: tuple(sorted(it))})
-        ev.locals["result"] = {}
-        kind, val = ev.run([loop])
-        result = ev.locals["result"]
-    except (Unfoldable, Raised) as e:
-        res.err("C03.R6", f"read-out loop outside folding language: {e}")
-        return
-    keys = list(result)
-    ok = keys == [("1",), ("1", "1", "1"), ("1", "36")] and [result[k].score for k in keys] == [1.0, 2.0, 2.5] \
-        and [result[k].solution for k in keys] == [["1"], ["1", "1", "1"], ["1", "36"]]
-    res.ob("C03.R6", f, loop, ok,
-           expected="assignments fold to sorted configuration multisets without the deletion allele and 'PSEUDO'; the first (best) occurrence is kept with its objective",
-           found=f"{[(k, result[k].score) for k in keys]}",
-           clause="none is repeated; its score equals the objective of the best explanation of that structure", key="folding")
 
 
 def r7(repo, res):
@@ -517,89 +155,236 @@ def r7(repo, res):
 VAL_SEED = 0
 
 
-def run(repo, res):
-    global VAL_SEED
+def cn_instances():
+    """Sample instances of the structure stage: fixed ones and seeded random ones (planted structure + noise)."""
+    import random
+
+    from checks._cnmodel import Instance
     from sa.report import seed as _seed, thorough
 
-    rounds = [0] if not thorough() else [0] + [1 + (_seed() + j) % 97 for j in range(4)]
-    for sd in rounds:
-        VAL_SEED = sd
-        _run(repo, res)
-    res.count("C03:valuations evaluated per template", len(rounds))
-    VAL_SEED = 0
+    rnd = random.Random(_seed() + 30)
+    full = sample_configs()
+    out = []
+
+    def prof(gap, default=False):
+        if default:
+            return Obj(cn_max=20, gap=gap, cn_diff=10.0, cn_fit=1.0, cn_parsimony=0.5, cn_fusion_left=0.5, cn_fusion_right=0.25, cn_pce_penalty=2.0)
+        return Obj(cn_max=20, gap=gap, cn_diff=rnd.choice([4.0, 10.0, 7.0]), cn_fit=rnd.choice([1.0, 3.0]), cn_parsimony=rnd.choice([0.5, 0.7]),
+                   cn_fusion_left=rnd.choice([0.5, 0.6]), cn_fusion_right=rnd.choice([0.25, 0.15]), cn_pce_penalty=rnd.choice([2.0, 1.5]))
+
+    def depth(cfgs, planted, noise, parts, pseudo_extra=0.0):
+        cov = {}
+        for r in REG:
+            g0 = sum(cfgs[c].cn[0][r] for c in planted)
+            g1 = (sum(cfgs[c].cn[1][r] for c in planted) + pseudo_extra) if parts > 1 else 0
+            cov[r] = (round(max(0.0, g0 + rnd.uniform(-noise, noise)), 2), round(max(0.0, g1 + rnd.uniform(-noise, noise)), 2) if parts > 1 else 0.0)
+        return cov
+
+    fixed = [
+        (["1", "5", "36", "68"], ["1", "36"], 2, "5", None, 3, 0.3),
+        (["1", "5", "36", "68"], ["1", "1", "1"], 2, "5", None, 3, 0.1),
+        (["1", "5", "36", "68"], ["5", "5"], 2, "5", None, 3, 0.3),
+        (["1", "5", "36", "68"], ["1", "68"], 2, "5", {"36": 0.0, "68": 5.0}, 3, 0.1),
+        (["1", "36"], ["1", "1"], 2, None, None, 3, 0.3),
+        (["1", "5"], ["1", "5"], 1, "5", None, 4, 0.0),
+    ]
+    for names, planted, parts, dele, fs, mx, gap in fixed:
+        cfgs = {k: Obj(cn=[dict(pp) for pp in v.cn[:parts]], kind=v.kind, alleles=set(), description="") for k, v in full.items() if k in names}
+        out.append(Instance(cfgs, REG, REG, depth(cfgs, planted, 0.3, parts), mx, prof(gap, default=(len(out) == 0)), parts, dele, fs))
+    # an extra pseudogene copy (the free pseudogene slot is part of the best explanation), and half a copy of it with a wide gap
+    # (the same structure is met twice, with and without the free slot)
+    for extra, gap in ((1.0, 0.0), (0.5, 0.6), (2.0, 0.3)):
+        cfgs = {k: Obj(cn=[dict(pp) for pp in v.cn], kind=v.kind, alleles=set(), description="") for k, v in full.items() if k in ("1", "5", "36")}
+        out.append(Instance(cfgs, REG, REG, depth(cfgs, ["1", "1"], 0.05, 2, pseudo_extra=extra), 3, prof(gap, default=True), 2, "5", None))
+    for _ in range(30 if thorough() else 4):
+        names = ["1"] + rnd.sample(["5", "36", "68"], rnd.randint(1, 3))
+        parts = rnd.choice([2, 2, 1])
+        dele = "5" if "5" in names else None
+        cfgs = {k: Obj(cn=[dict(pp) for pp in v.cn[:parts]], kind=v.kind, alleles=set(), description="") for k, v in full.items() if k in names}
+        planted = [rnd.choice(names) for _ in range(rnd.randint(0, 4))]
+        fs = None if rnd.random() < 0.7 else {c: rnd.choice([0.0, 0.05, 0.2, 3.0]) for c in names if c not in ("1", "5")}
+        unique = REG if rnd.random() < 0.7 else ["e1", "pce"]
+        inst = Instance(cfgs, REG, unique, depth(cfgs, planted, 0.5, parts), rnd.choice([3, 4]), prof(rnd.choice([0.0, 0.1, 0.3])), parts, dele, fs)
+        out.append(inst)
+    return out
 
 
-def _run(repo, res):
+def r8(repo, res):
+    """solve_cn_model folded whole against the recording library, per sample instance: (R8) the model it builds admits exactly
+    the documented selections of slots with exactly the documented objective; (R9) what it reports is the documented report."""
+    from checks._cnmodel import code_points, fold_solve_cn, reference_points, reference_report, reference_slots
+    from sa.fold import module_consts
+    from sa.lpmodel import wrapper_model
+
     f = repo.func("cn::solve_cn_model")
     res.analysed(f)
-    m = Model(f)
-    res.floor("C03", "addConstr sites", len(m.sites), 4)
-    res.floor("C03", "variable families", len(m.fams.containers), 3)
-    res.count("C03:constraint sites", len(m.sites))
-    for s in m.sites:
-        res.count(f"C03:site {s.prefix}", 1)
-    V = r1(repo, res, m)
-    if V is None:
+    prec = module_consts(repo.mod("lpinterface")).get("SOLVER_PRECISON", 1e-5)
+    try:
+        wrapper = wrapper_model(repo)
+    except AnalysisError as e:
+        res.err("C03.R8", f"solver wrapper class cannot be lifted: {e}")
         return
-    r2(repo, res, m, V)
-    r3(repo, res, f)
-    r4(repo, res, m, V)
-    r5(repo, res, m, V)
-    r6(repo, res, m, V)
+    bad = {}
+    n = points = 0
+    for inst in cn_instances():
+        try:
+            kind, val, lib = fold_solve_cn(repo, inst, wrapper)
+            if kind == "raise":
+                bad.setdefault("runs", f"{inst.describe()}: raises {val}")
+                continue
+            (report, untouched) = val
+            cp, slots = code_points(lib)
+        except Unfoldable as e:
+            res.err("C03.R8", f"solve_cn_model outside the folding language: {e}")
+            return
+        n += 1
+        def canonical(points_):
+            """Selections up to the naming of equivalent slots: (configurations taken as complete haplotypes, configurations taken as extra copies)."""
+            out_ = {}
+            for sel_, obj_ in points_.items():
+                key_ = (tuple(sorted(c_ for c_, i_ in sel_ if i_ <= 0)), tuple(sorted(c_ for c_, i_ in sel_ if i_ > 0)))
+                if key_ not in out_ or obj_ < out_[key_]:
+                    out_[key_] = obj_
+            return out_
+
+        rp_raw = reference_points(inst)
+        rp, cp = canonical(rp_raw), canonical(cp)
+        points += len(rp_raw)
+        want_slots = set(reference_slots(inst))
+        if slots != want_slots:
+            bad.setdefault("slots", f"{inst.describe()}: structure variables for {sorted(slots - want_slots, key=str)} are extra, {sorted(want_slots - slots, key=str)} are missing")
+            continue
+        only_code = [s_ for s_ in cp if s_ not in rp]
+        only_ref = [s_ for s_ in rp if s_ not in cp]
+        if only_code:
+            w = min(only_code, key=lambda s_: (len(s_), sorted(map(str, s_))))
+            bad.setdefault("admissible", f"{inst.describe()}: the model admits complete haplotypes {w[0]} with extra copies {w[1]}, which the statement excludes")
+        if only_ref:
+            w = min(only_ref, key=lambda s_: (len(s_), sorted(map(str, s_))))
+            bad.setdefault("admissible", f"{inst.describe()}: the model excludes the admissible structure: complete haplotypes {w[0]}, extra copies {w[1]}")
+        diff = [(s_, cp[s_], rp[s_]) for s_ in cp if s_ in rp and abs(cp[s_] - rp[s_]) > 1e-7]
+        if diff:
+            s_, a_, b_ = min(diff, key=lambda t: (len(t[0]), sorted(map(str, t[0]))))
+            bad.setdefault("objective", f"{inst.describe()}: complete haplotypes {s_[0]} with extra copies {s_[1]} score {a_:.6f} in the model, documented objective {b_:.6f}")
+        if not untouched:
+            bad.setdefault("inputs", f"{inst.describe()}: the configuration table handed in was modified")
+        # the report, clause by clause (the statement leaves room for encodings that report more of the within-gap structures)
+        def key_of(sel_):
+            return tuple(sorted(c_ for c_, _ in sel_ if c_ != inst.deletion and c_ != "PSEUDO"))
+
+        best_of = {}
+        for sel_, obj_ in rp_raw.items():
+            k_ = key_of(sel_)
+            if k_ not in best_of or obj_ < best_of[k_]:
+                best_of[k_] = obj_
+        got = [(tuple(sorted(c for c, k_ in sol.items() for _ in range(k_))), sc) for sc, sol in report]
+        tag = f"{inst.describe()}: reports {[(g[0], round(g[1], 6)) for g in got]}"
+        if not best_of:
+            if got:
+                bad.setdefault("report-admissible", f"{tag} although no structure is admissible")
+            continue
+        if not got:
+            bad.setdefault("report-best", f"{tag}; admissible structures exist, the best is {min(best_of.items(), key=lambda t: t[1])}")
+            continue
+        overall = min(best_of.values())
+        for k_, sc in got:
+            if k_ not in best_of:
+                bad.setdefault("report-admissible", f"{tag}; {k_} is not an admissible structure")
+            elif abs(sc - best_of[k_]) > 1e-6:
+                bad.setdefault("report-score", f"{tag}; the best explanation of {k_} scores {best_of[k_]:.6f}")
+        if abs(got[0][1] - overall) > 1e-6 or any(g[1] < got[0][1] - 1e-9 for g in got):
+            bad.setdefault("report-best", f"{tag}; the best admissible structure scores {overall:.6f}")
+        ub = (1 + inst.profile.gap) * overall
+        if any(g[1] > ub + prec + 1e-9 for g in got):
+            bad.setdefault("report-gap", f"{tag}; the gap allows scores up to {ub:.6f}")
+        if len({g[0] for g in got}) != len(got):
+            bad.setdefault("report-repeat", f"{tag}: a structure is repeated")
+        rep = dict(got)
+        for k_, sc in best_of.items():
+            if k_ in rep or sc > ub + prec:
+                continue
+            ck = collections.Counter(k_)
+            if not any(not (collections.Counter(r_) - ck) and rs <= sc + 1e-6 for r_, rs in rep.items()):
+                bad.setdefault("report-complete", f"{tag}; the admissible structure {k_} (score {sc:.6f}, within the gap) is not reported and contains no reported structure that scores no worse")
+    res.count("C03.R8:instances folded", n)
+    res.count("C03.R8:admissible selections compared", points)
+    clauses = {
+        "runs": ("C03.R8", "the model is built and solved on every sample instance", ""),
+        "slots": ("C03.R8", "structure variables = two complete slots per kept configuration, extra gene copies for the default kind only, free pseudogene copies with "
+                            "pseudogene and deletion allele (weakly supported fusions dropped when support values are given)",
+                  "two complete haplotype configurations plus optional extra gene copies; a fusion or deletion configuration at most twice"),
+        "admissible": ("C03.R8", "the selections the model admits are exactly the admissible ones (two complete configurations, ordered extra copies, a double deletion stands alone, "
+                                 "fit errors within the copy bound)",
+                       "exactly two complete haplotype configurations ... never combines a double deletion with anything else"),
+        "objective": ("C03.R8", "every admissible selection scores cn_diff/|U| * sum w_r|E_r| + cn_fit/|U| * sum|EG_r| + cn_parsimony * sum penalty (pointwise)",
+                      "its score equals the documented objective (normalised depth-fit error, gene-fit error and parsimony penalties)"),
+        "inputs": ("C03.R8", "the configuration table handed in is left untouched", ""),
+        "report-admissible": ("C03.R9", "every reported structure is admissible", "every reported gene structure is made of exactly two complete haplotype configurations ..."),
+        "report-score": ("C03.R9", "the score of a reported structure is the documented objective of its best explanation", "its score equals the documented objective ... of the best explanation of that structure"),
+        "report-best": ("C03.R9", "the first reported structure is the best admissible one, later ones score no lower", "no admissible structure scores lower than the best reported one"),
+        "report-gap": ("C03.R9", "every reported structure scores within (1 + gap) x best", "all reported ones lie within the gap"),
+        "report-repeat": ("C03.R9", "no structure is reported twice", "none is repeated"),
+        "report-complete": ("C03.R9", "a within-gap admissible structure that is missing contains a reported one that scores no worse",
+                            "an admissible within-gap structure that is not reported always contains a reported structure that scores no worse"),
+    }
+    for key, (rule, exp, clause) in clauses.items():
+        res.ob(rule, f, f, key not in bad, expected=exp, found=f"{n} instances, {points} admissible selections agree" if key not in bad else bad[key],
+               clause=clause, key=f"model:{key}")
+
+
+def run(repo, res):
+    r8(repo, res)
     r7(repo, res)
-    extra = [s.prefix for s in m.sites if not any(s.prefix.startswith(p) for p in ("CDIPLO", "CDEL", "CORD", "CG_COV", "C_COV"))]
-    if extra:
-        res.note(f"C03: unclassified constraint sites (not judged): {extra}")
 
 
 MUTANTS = [
-    dict(name="R1 one CDIPLO side dropped", module="cn", expect="C03.R1",
+    dict(name="R1 one CDIPLO side dropped", module="cn", expect=["C03.R8", "C03.R9"],
          old='    model.addConstr(diplo_inducing >= 2, name="CDIPLO")\n', new=""),
-    dict(name="R1 three haplotypes", module="cn", expect="C03.R1",
+    dict(name="R1 three haplotypes", module="cn", expect=["C03.R8", "C03.R9"],
          old='    model.addConstr(diplo_inducing <= 2, name="CDIPLO")', new='    model.addConstr(diplo_inducing <= 3, name="CDIPLO")'),
-    dict(name="R1 filter < 0", module="cn", expect="C03.R1",
+    dict(name="R1 filter < 0", module="cn", expect=["C03.R8", "C03.R9"],
          old="diplo_inducing = model.quicksum(VCN[a] for a in VCN if a[1] <= 0)", new="diplo_inducing = model.quicksum(VCN[a] for a in VCN if a[1] < 0)"),
-    dict(name="R1 filter <= 1", module="cn", expect="C03.R1",
+    dict(name="R1 filter <= 1", module="cn", expect=["C03.R8", "C03.R9"],
          old="diplo_inducing = model.quicksum(VCN[a] for a in VCN if a[1] <= 0)", new="diplo_inducing = model.quicksum(VCN[a] for a in VCN if a[1] <= 1)"),
-    dict(name="R2 CDEL dropped", module="cn", expect="C03.R2",
+    dict(name="R2 CDEL dropped", module="cn", expect=["C03.R8", "C03.R9"],
          old='                model.addConstr(v + VCN[del_allele, -1] <= 1, name=f"CDEL_{a}_{ai}")', new="                pass"),
-    dict(name="R2 CDEL guard excludes pseudogene slots", module="cn", expect="C03.R2",
+    dict(name="R2 CDEL guard excludes pseudogene slots", module="cn", expect=["C03.R8", "C03.R9"],
          old="            if a != del_allele:\n", new='            if a != del_allele and a != "PSEUDO":\n'),
-    dict(name="R2 CDEL against the first deletion slot", module="cn", expect="C03.R2",
+    dict(name="R2 CDEL against the first deletion slot", module="cn", expect=["C03.R8", "C03.R9"],
          old="model.addConstr(v + VCN[del_allele, -1] <= 1", new="model.addConstr(v + VCN[del_allele, 0] <= 1"),
-    dict(name="R2 big-M rewrite (seeded C03_3 shape)", module="cn", expect="C03.R2",
+    dict(name="R2 big-M rewrite (seeded C03_3 shape)", module="cn", expect=["C03.R8", "C03.R9"],
          old='''        for (a, ai), v in VCN.items():
             if a != del_allele:
                 model.addConstr(v + VCN[del_allele, -1] <= 1, name=f"CDEL_{a}_{ai}")''',
          new='''        others = model.quicksum(v for (a, ai), v in VCN.items() if a != del_allele)
         model.addConstr(others + max_cn * VCN[del_allele, -1] <= max_cn, name="CDEL")'''),
-    dict(name="R3 extra slots for every kind", module="cn", expect="C03.R3",
+    dict(name="R3 extra slots for every kind", module="cn", expect=["C03.R8", "C03.R9"],
          old="        if cn_configs[a].kind != CNConfigType.DEFAULT:\n            continue\n", new=""),
-    dict(name="R3 pseudogene not decremented", module="cn", expect="C03.R3",
+    dict(name="R3 pseudogene not decremented", module="cn", expect=["C03.R8", "C03.R9"],
          old="                    r: v - 1 for r, v in structures[a, i].cn[g].items()", new="                    r: v for r, v in structures[a, i].cn[g].items()"),
-    dict(name="R3 one extra slot too few", module="cn", expect="C03.R3",
+    dict(name="R3 one extra slot too few", module="cn", expect=["C03.R8", "C03.R9"],
          old="        for i in range(1, max_cn):\n            structures[a, i]", new="        for i in range(1, max_cn - 1):\n            structures[a, i]"),
-    dict(name="R3 pseudo slots without deletion guard", module="cn", expect=["C03.R3"],
+    dict(name="R3 pseudo slots without deletion guard", module="cn", expect=["C03.R8", "C03.R9"],
          old="    if len(gene.regions) > 1 and del_allele:", new="    if del_allele:"),
-    dict(name="R4 gene-fit side dropped", module="cn", expect="C03.R4",
+    dict(name="R4 gene-fit side dropped", module="cn", expect=["C03.R8", "C03.R9"],
          old='        model.addConstr(expr_gene + VERR_GENE[r] >= exp_cov0, name=f"CG_COV_{r}")\n', new=""),
-    dict(name="R4 error variable non-negative", module="cn", expect="C03.R4",
+    dict(name="R4 error variable non-negative", module="cn", expect=["C03.R8", "C03.R9"],
          old='VERR[r] = model.addVar(name=f"E_{r}", lb=-profile.cn_max, ub=profile.cn_max)', new='VERR[r] = model.addVar(name=f"E_{r}", lb=0, ub=profile.cn_max)'),
-    dict(name="R4 pseudogene term lost", module="cn", expect="C03.R4",
+    dict(name="R4 pseudogene term lost", module="cn", expect=["C03.R8", "C03.R9"],
          old="                expr -= structure.cn[1][r] * VCN[s]", new="                expr -= 0 * VCN[s]"),
-    dict(name="R4 scale without +1", module="cn", expect="C03.R4",
+    dict(name="R4 scale without +1", module="cn", expect=["C03.R8", "C03.R9"],
          old="        scale = max(exp_cov0, exp_cov1) + 1", new="        scale = max(exp_cov0, exp_cov1) + 2"),
-    dict(name="R5 fit term dropped", module="cn", expect=["C03.R5", "C05.R1"],
+    dict(name="R5 fit term dropped", module="cn", expect=["C03.R8", "C03.R9"],
          old="    model.setObjective(o_diff + o_fit + o_pars)", new="    model.setObjective(o_diff + o_pars)"),
-    dict(name="R5 parsimony constant", module="cn", expect="C03.R5",
+    dict(name="R5 parsimony constant", module="cn", expect=["C03.R8", "C03.R9"],
          old="    PARSIMONY_PENALTY *= 0.75\n", new="    PARSIMONY_PENALTY *= 0.5\n"),
-    dict(name="R5 fusion surcharges swapped", module="cn", expect="C03.R5",
+    dict(name="R5 fusion surcharges swapped", module="cn", expect=["C03.R8", "C03.R9"],
          old="            penalty[n] += PARSIMONY_PENALTY * profile.cn_fusion_right", new="            penalty[n] += PARSIMONY_PENALTY * profile.cn_fusion_left"),
-    dict(name="R6 gap not passed", module="cn", expect="C03.R6",
+    dict(name="R6 gap not passed", module="cn", expect=["C03.R8", "C03.R9"],
          old="    for status, opt, sol in model.solutions(profile.gap):", new="    for status, opt, sol in model.solutions():"),
-    dict(name="R6 PSEUDO not folded away", module="cn", expect="C03.R6",
+    dict(name="R6 PSEUDO not folded away", module="cn", expect=["C03.R8", "C03.R9"],
          old='if lookup[v] not in [del_allele, "PSEUDO"]', new="if lookup[v] not in [del_allele]"),
-    dict(name="R6 last occurrence wins", module="cn", expect="C03.R6",
+    dict(name="R6 last occurrence wins", module="cn", expect=["C03.R8", "C03.R9"],
          old="        if sol_tuple not in result:\n", new="        if True:\n"),
     dict(name="R7 branches reordered (seeded C03_1 shape)", module="cn", expect="C03.R7",
          old="    if profile.cn_solution:\n        return [_parse_user_solution(gene, profile.cn_solution)]\n    elif not gene.do_copy_number:",
